@@ -22,6 +22,8 @@ use crate::{vensure, vfail};
 pub enum Proj {
     File(String),
     Text(String),
+    /// project directory exported with HULC's result files (the export tool's --use-extra mode)
+    DirExtra(String),
 }
 
 fn real_projects() -> Vec<String> {
@@ -32,10 +34,14 @@ fn project_text(p: &Proj) -> String {
     match p {
         Proj::File(f) => std::fs::read_to_string(f).unwrap_or_default(),
         Proj::Text(t) => t.clone(),
+        Proj::DirExtra(d) => crate::util::files_with_ext(std::path::Path::new(d), &["ctehexml"]).first().and_then(|f| std::fs::read_to_string(f).ok()).unwrap_or_default(),
     }
 }
 
 fn convert(p: &Proj) -> Result<Model, String> {
+    if let Proj::DirExtra(dir) = p {
+        return hulc2model::collect_hulc_data(dir, true, true).map_err(|e| format!("collect: {}", e));
+    }
     let d = ctehexml::parse_with_catalog(&project_text(p)).map_err(|e| format!("parse: {}", e))?;
     Model::try_from(&d).map_err(|e| format!("convert: {}", e))
 }
@@ -179,6 +185,7 @@ fn check_conv_seq(h: &CaseH, c: &ConvSeq) -> Verdict {
     let label = |p: &Proj| match p {
         Proj::File(f) => f.trim_start_matches("/repo/hulc_tests/tests/").to_string(),
         Proj::Text(t) => format!("generated project ({} bytes)", t.len()),
+        Proj::DirExtra(d) => format!("{} with result files", d.trim_start_matches("/repo/hulc_tests/tests/")),
     };
     for (i, p) in c.order.iter().enumerate() {
         let base = match baseline_of(p) {
@@ -301,7 +308,24 @@ fn check_locality(h: &CaseH, c: &LocalityCase) -> Verdict {
         }
         Err(p) => return Verdict::from_panic("C05:convert", &p),
     };
-    let block = EXTRA_BLOCKS[c.extra as usize % EXTRA_BLOCKS.len()];
+    // #8: a further CONSTRUCTION (own name, own absorptance) over a LAYERS definition the project already uses
+    let dynamic;
+    let block: &str = if c.extra as usize % (EXTRA_BLOCKS.len() + 1) == EXTRA_BLOCKS.len() {
+        let layers_name = text.lines().map(str::trim).filter(|l| l.starts_with("LAYERS") && l.contains('=')).filter_map(|l| {
+            let a = l.find('"')?;
+            let b = l[a + 1..].find('"')? + a + 1;
+            Some(l[a + 1..b].to_string())
+        }).find(|n| n != "Ninguno");
+        match layers_name {
+            Some(n) => {
+                dynamic = format!("\"{}0.95zz\" = CONSTRUCTION\n    TYPE = LAYERS\n    LAYERS = \"{}\"\n    ABSORPTANCE = 0.950000\n    ..\n", n, n);
+                &dynamic
+            }
+            None => return Verdict::Pass,
+        }
+    } else {
+        EXTRA_BLOCKS[c.extra as usize % (EXTRA_BLOCKS.len() + 1)]
+    };
     let t2 = match insert_block(&text, block) {
         Some(t) => t,
         None => return Verdict::Pass,
@@ -314,11 +338,11 @@ fn check_locality(h: &CaseH, c: &LocalityCase) -> Verdict {
     let (a, b) = (name_id_maps(&m1), name_id_maps(&m2));
     for (k, id) in &a {
         match b.get(k) {
-            Some(id2) => vensure!(id == id2, "C05:locality:id-changed", "adding the unrelated definition #{} changes the id of {} from {} to {}", c.extra % 8, k, id, id2),
+            Some(id2) => vensure!(id == id2, "C05:locality:id-changed", "adding the unrelated definition #{} ({}) changes the id of {} from {} to {}", c.extra % 9, block.lines().next().unwrap_or(""), k, id, id2),
             None => vfail!("C05:locality:element-lost", "adding an unrelated definition makes {} disappear", k),
         }
     }
-    h.class(&format!("extra/{}", c.extra % 8));
+    h.class(&format!("extra/{}", c.extra % 9));
     if a.len() > 20 {
         h.nontrivial(fp(&(a.len(), c.extra, fnv64(text.as_bytes()))));
     }
@@ -336,6 +360,12 @@ fn check_repeat(h: &CaseH, p: &Proj) -> Verdict {
     }
     vensure!(r[0] == r[1] && r[1] == r[2], "C05:repeat-differs", "three conversions of the same project in one process give different JSON (lengths {:?})", r.iter().map(|x| x.as_ref().map(|s| s.len()).unwrap_or(0)).collect::<Vec<_>>());
     h.nontrivial(fp(&fnv64(r[0].as_ref().unwrap().as_bytes())));
+    if matches!(p, Proj::DirExtra(_)) {
+        h.class("with-result-files");
+        if r[0].as_ref().map_or(false, |j| j.contains("\"overrides\"")) {
+            h.class("with-result-files/overrides-present");
+        }
+    }
     Verdict::Pass
 }
 
@@ -462,10 +492,19 @@ fn ind_seq() -> BoxedStrategy<IndSeq> {
 
 pub fn run(args: &Args) -> ! {
     let ctx = Ctx::new("C05", "exploration", args);
-    ctx.rule("conversion: shipped .ctehexml projects and generated buildings: 3 repeats in one process; histories of 2-6 conversions in ONE fresh process in a generated order and the same on simultaneous threads (barrier-released), each compared byte-wise (digest + length) with the project converted alone in a fresh process; id locality: each project with one unrelated definition added (material, layers, glass, frame, day/week schedule, shade, bridge): name -> id maps before are a sub-map of those after; the 6 shipped (project, reference model) pairs of the Makefile, reference normalised through the current serialiser. indicators: histories of 2-7 computations (shipped models, their variants with shades/setbacks removed but identical ids, generated models over all zones) sequentially in one fresh process and on simultaneous threads, each result compared with the model computed alone in a fresh process (per-orientation detail compared as a map). Non-trivial: history with >= 2 different projects / >= 2 climate zones.");
+    ctx.rule("conversion: shipped .ctehexml projects (plain, and exported with their result files as --use-extra does) and generated buildings: 3 repeats in one process; histories of 2-6 conversions in ONE fresh process in a generated order and the same on simultaneous threads (barrier-released), each compared byte-wise (digest + length) with the project converted alone in a fresh process; id locality: each project with one unrelated definition added (material, layers, glass, frame, day/week schedule, shade, bridge, or a further construction with its own name and absorptance over a layers definition the project already uses): name -> id maps before are a sub-map of those after; the 6 shipped (project, reference model) pairs of the Makefile, reference normalised through the current serialiser. indicators: histories of 2-7 computations (shipped models, their variants with shades/setbacks removed but identical ids, generated models over all zones) sequentially in one fresh process and on simultaneous threads, each result compared with the model computed alone in a fresh process (per-orientation detail compared as a map). Non-trivial: history with >= 2 different projects / >= 2 climate zones.");
     ctx.assume("a fresh process = a new worker process of the harness binary; thread interleavings are sampled (start order only)");
     ctx.replay_regressions(replay_one);
-    let real: Vec<Proj> = real_projects().into_iter().map(Proj::File).collect();
+    let mut real: Vec<Proj> = real_projects().into_iter().map(Proj::File).collect();
+    let plain = real.clone();
+    // the same projects exported with their result files (overrides filled from KyGananciasSolares.txt / NewBDL_O.tbl)
+    for f in real_projects() {
+        if let Some(d) = std::path::Path::new(&f).parent() {
+            if !crate::util::files_named(d, "KyGananciasSolares.txt").is_empty() {
+                real.push(Proj::DirExtra(d.to_string_lossy().to_string()));
+            }
+        }
+    }
     ctx.run_enum("repeat_real", &real, true, check_repeat);
     ctx.run_prop("repeat_generated", ctx.tier().pick(20, 500), || gb::bld().prop_map(|b| Proj::Text(gb::print_ctehexml(&b, &[]))), check_repeat);
     let pairs: Vec<(String, String)> = PAIRS.iter().map(|(a, b)| (a.to_string(), b.to_string())).collect();
@@ -482,15 +521,16 @@ pub fn run(args: &Args) -> ! {
     seqs.push(ConvSeq { order: vec![real[(ctx.seed() as usize) % real.len()].clone(); 8], threads: true });
     ctx.run_enum("conversion_histories", &seqs, false, check_conv_seq);
     let mut loc = vec![];
-    for (i, p) in real.iter().enumerate() {
-        for e in 0..ctx.tier().pick(8u8, 8u8) {
-            loc.push(LocalityCase { proj: p.clone(), extra: (i as u8).wrapping_mul(3).wrapping_add(e) });
+    for (i, p) in plain.iter().enumerate() {
+        let _ = i;
+        for e in 0..9u8 {
+            loc.push(LocalityCase { proj: p.clone(), extra: e });
         }
     }
     ctx.run_enum("id_locality_real", &loc, false, check_locality);
     ctx.run_prop("id_locality_generated", ctx.tier().pick(400, 10_000), || (gb::bld(), any::<u8>()).prop_map(|(b, extra)| LocalityCase { proj: Proj::Text(gb::print_ctehexml(&b, &[])), extra }), check_locality);
     ctx.run_prop("indicator_histories", ctx.tier().pick(300, 10_000), ind_seq, check_ind_seq);
-    for c in ["conversion_histories/threads", "conversion_histories/sequence", "indicator_histories/threads", "indicator_histories/sequence", "indicator_histories/edited-variant-with-same-ids-in-history"] {
+    for c in ["conversion_histories/threads", "conversion_histories/sequence", "indicator_histories/threads", "indicator_histories/sequence", "indicator_histories/edited-variant-with-same-ids-in-history", "id_locality_real/extra/8", "id_locality_generated/extra/8", "repeat_real/with-result-files/overrides-present"] {
         ctx.require_class(c);
     }
     ctx.finish()
